@@ -290,7 +290,8 @@ fn check_fault(ctx: &mut Ctx, rs: &RefSpec, doc: &Vec<Node>, f: &Fault, want_ite
                 && match &obs.term {
                     Term::Err(NErr::InvalidTagId { pos, id }) => f.class == Class::Id && *pos == f.pos && *id == f.id,
                     Term::Err(NErr::Hierarchy { found, .. }) => f.class == Class::Hier && *found == f.id,
-                    Term::Err(NErr::OversizedChild { pos, id, size }) => (f.class == Class::Oversized && *pos == f.pos && *id == f.id && Some(*size) == f.size) || (f.class == Class::Hier && *pos == f.pos),
+                    // (kind and offset are what the statement fixes; the id identifies the element; what the size field counts is the library's business)
+                    Term::Err(NErr::OversizedChild { pos, id, .. }) => (f.class == Class::Oversized && *pos == f.pos && *id == f.id) || (f.class == Class::Hier && *pos == f.pos),
                     _ => false,
                 };
             if !ok {
@@ -413,7 +414,7 @@ fn fault_behind_a_recovery(ctx: &mut Ctx, rs: &RefSpec, doc: &Vec<Node>, f: &Fau
                                         Ok(Ok(())) => log.push("recover:Ok".into()),
                                     }
                                 } else {
-                                    let ok = matches!(&e, NErr::OversizedChild { pos, id, size } if *pos == f.pos + j && *id == f.id && Some(*size) == f.size);
+                                    let ok = matches!(&e, NErr::OversizedChild { pos, id, .. } if *pos == f.pos + j && *id == f.id);
                                     if !ok {
                                         verdict = Some(("recovery-then-fault/not-reported-with-its-kind-and-position", format!("expected OversizedChild at {} for id {:x}", f.pos + j, f.id)));
                                     }
